@@ -3,6 +3,7 @@
 pub mod c18;
 pub mod hist;
 pub mod histprops;
+pub mod histprops2;
 pub mod json;
 pub mod lockmon;
 pub mod monitors;
